@@ -198,7 +198,8 @@ set_prolog_flag(max_integer, Value) :-
 set_prolog_flag(min_integer, Value) :- integer(Value), !, '$fail'. % 7.11.1.3
 set_prolog_flag(min_integer, Value) :-
     throw(error(domain_error(flag_value, min_integer + Value), set_prolog_flag/2)). % 8.17.1.3 e
-set_prolog_flag(integer_rounding_function, down) :- !. % 7.11.1.4
+set_prolog_flag(integer_rounding_function, toward_zero) :- !. % 7.11.1.4
+set_prolog_flag(integer_rounding_function, down) :- !, '$fail'. % 7.11.1.4
 set_prolog_flag(integer_rounding_function, Value) :-
     throw(error(domain_error(flag_value, integer_rounding_function + Value),
                 set_prolog_flag/2)). % 8.17.1.3 e
